@@ -112,7 +112,7 @@ class ParallelTemperedChain(BaseChain):
             # acceptance ratios for ntemp levels
             self._temperature_acceptance = ChainData(
                 ['acceptance_ratio'], dtypes={'acceptance_ratio': float},
-                ntemps=self.ntemps-1)
+                ntemps=self.ntemps-1, keepdims=True)
             self._temperature_swaps = ChainData(
                 ['swap_index'], dtypes={'swap_index': int},
                 ntemps=self.ntemps)
